@@ -29,6 +29,8 @@
 (*                     table, SFileAddFileEx holding ARCHIVES                         [F-C06-b]     *)
 (*   "HasFileStale"    (before def3ee6) SFileHasFile / SFileVerifyFile on a writable archive        *)
 (*                     consulted the read-only snapshot taken at open                 [F-C19-c]     *)
+(*   "GetInfoNested"   (mutant, seeded/C19-s4) SFileGetFileInfo keeps FILES while it looks the    *)
+(*                     handle up in ARCHIVES (named guards instead of temporaries)                 *)
 (*   "CloseFileNested" (mutant, selftest/C19/mutant-6) SFileCloseFile takes ARCHIVES while it       *)
 (*                     holds FILES: lock-order inversion against SFileOpenFileEx                    *)
 (***************************************************************************)
@@ -44,7 +46,7 @@ CONSTANTS
                   \* the allocation scheme is not part of the property)
 
 CodeDev == {"CloseSplit", "NoFindPurge", "FindLate", "FindNextNested", "VerifyRelock", "ProbeForever",
-            "HasFileStale", "CloseFileNested"}
+            "HasFileStale", "CloseFileNested", "GetInfoNested"}
 
 VARIABLES
     vdisk,     \* [ArchFiles -> [Names -> content]]   what is on disk
@@ -331,14 +333,18 @@ GI_File(t) ==
                ELSE IF Arg(t).n2 < 8 THEN Finish(t, 0, <<>>, "insufficient_buffer")
                ELSE Finish(t, 1, <<IF Arg(t).n1 = 7 THEN Len(f.data) ELSE f.pos>>, "ok")
        ELSE Goto(t, "GetFileInfo1") /\ UNCHANGED vfr
-    /\ UNCHANGED <<tables, vlock, vclosed>>
+    /\ IF "GetInfoNested" \in Dev /\ Arg(t).h # 0 /\ Arg(t).h \notin DOMAIN vfiles
+       THEN vlock' = [vlock EXCEPT !["FILES"] = t]        \* mutant: the FILES guard stays alive
+       ELSE UNCHANGED vlock
+    /\ UNCHANGED <<tables, vclosed>>
 GI_Archive(t) ==
     /\ At(t, "GetFileInfo1") /\ CanLock("ARCH")
+    /\ IF "GetInfoNested" \in Dev THEN Release(t, "FILES") ELSE UNCHANGED vlock
     /\ IF Arg(t).h \notin DOMAIN varch THEN Finish(t, 0, <<>>, "invalid_handle")
        ELSE IF Arg(t).n1 \notin {1, 2} THEN Finish(t, 0, <<>>, "not_supported")
        ELSE IF Arg(t).n2 < (IF Arg(t).n1 = 1 THEN 8 ELSE 4) THEN Finish(t, 0, <<>>, "insufficient_buffer")
        ELSE Finish(t, 1, <<>>, "ok")
-    /\ UNCHANGED <<tables, vlock, vclosed>>
+    /\ UNCHANGED <<tables, vclosed>>
 
 \* ============================================================================================
 \* functions that are one critical section on ARCHIVES
@@ -595,6 +601,13 @@ NoWaitCycle ==
     /\ \A t, u, w \in Threads : ~(Cardinality({t, u, w}) = 3 /\ WaitsFor(t, u) /\ WaitsFor(u, w) /\ WaitsFor(w, t))
 \* existence answers of the C API = existence in the session state (= the Rust API's answer)
 ExistenceAgrees == \A t \in Threads : vret[t].fn = "HasFile" => vret[t].ret = vret[t].out[1]
+\* The lock discipline of the design: ARCHIVES is the outermost lock; NEXT_HANDLE, FILES and FIND_HANDLES are only ever
+\* requested with nothing or with ARCHIVES held.  <<h, l>> \in LockOrder: l may be requested while h is held.
+LockOrder == {<<"ARCH", "NEXT">>, <<"ARCH", "FILES">>, <<"ARCH", "FINDS">>}
+HeldBy(t) == {l \in Locks : vlock[l] = t}
+LockOrderInv == \A t \in Threads : \A l \in Waits(t) : \A h \in HeldBy(t) : <<h, l>> \in LockOrder
+\* an observed acquisition record <<lock, set of locks held at that moment>> respects the discipline
+AcqRespects(lock, held) == \A h \in held : <<h, lock>> \in LockOrder
 \* locks are only held by threads that are inside a call
 LocksOwned == \A l \in Locks : vlock[l] # Free => vpc[vlock[l]] # "Idle"
 =============================================================================
